@@ -19,9 +19,21 @@ class Budget(BaseException):
     """Raised when a call uses more traced lines than its budget."""
 
 
-def _tracer(files, on_line):
+def _is_with_header(frame):
+    """A 'line' event on a `with` header also fires when control comes back to it to call
+    __exit__ on the normal way out of the block.  The interpreter only delivers real
+    asynchronous exceptions at calls and backward jumps, precisely so that `with` always
+    reaches __exit__ (bpo-29988); an injection at that event would model an interrupt that
+    cannot happen (and leak the lock / file the block manages).  Such events are not counted."""
+    import linecache
+
+    text = linecache.getline(frame.f_code.co_filename, frame.f_lineno).lstrip()
+    return text.startswith(("with ", "with(", "async with"))
+
+
+def _tracer(files, on_line, skip_with=False):
     def local(frame, event, arg):
-        if event == "line":
+        if event == "line" and not (skip_with and _is_with_header(frame)):
             on_line()
         return local
 
@@ -41,7 +53,7 @@ def count_lines(fn, files):
         box[0] += 1
 
     old = sys.gettrace()
-    sys.settrace(_tracer(files, on_line))
+    sys.settrace(_tracer(files, on_line, skip_with=True))
     try:
         val = fn()
     finally:
@@ -61,7 +73,7 @@ def abort_at(fn, files, k):
             raise Injected()
 
     old = sys.gettrace()
-    sys.settrace(_tracer(files, on_line))
+    sys.settrace(_tracer(files, on_line, skip_with=True))
     try:
         val = fn()
     except Injected:
